@@ -55,6 +55,11 @@ RECURSIVE Pfx(_, _, _)
 Pfx(X, seq, p) == IF seq = <<>> \/ XTok(X, p) = "" \/ XTok(X, p) # Head(seq) THEN 0 ELSE 1 + Pfx(X, Tail(seq), p + 1)
 
 RECURSIVE D(_, _, _, _, _)
+RECURSIVE DPratt(_, _, _, _, _, _)
+RECURSIVE DPrattLoop(_, _, _, _, _, _, _, _)
+RECURSIVE DPrattPrefix(_, _, _, _, _, _, _)
+RECURSIVE DPrattPost(_, _, _, _, _, _, _, _, _)
+RECURSIVE DPrattInfix(_, _, _, _, _, _, _, _, _)
 RECURSIVE DSeq(_, _, _, _, _, _)      \* children left to right
 RECURSIVE DAlts(_, _, _, _, _)        \* ordered choice
 RECURSIVE DRep(_, _, _, _, _, _, _, _)
@@ -190,6 +195,52 @@ DRetry(a, skip, until, X, p, c, env) ==
             ELSE LET rest == DRetry(a, skip, until, X, rsk.end, c, env) IN
                  IF rest.ok THEN R(TRUE, rest.end, rest.val, rsk.em \o rest.em, {}) ELSE Fail({})
 
+(* The textbook binding-power (precedence climbing) algorithm, C09.  Operators are tried in  *)
+(* declaration order.  left(x) = (2x, 2x+1), right(x) = (2x+1, 2x); a prefix operator of power  *)
+(* x parses its operand with minimum power 2x; a postfix one applies when 2x+1 >= min.          *)
+DLeftPow(op) == IF op[1] = "infixr" THEN 2 * op[2] + 1 ELSE 2 * op[2]
+DRightPow(op) == IF op[1] = "infixr" THEN 2 * op[2] ELSE 2 * op[2] + 1
+DW(X, v, s, e, c) == LET sp == XSpan(X, s, e) IN VW(v, sp[1], sp[2], c, e)
+(* first prefix operator (from index k) that matches and whose operand parses; else the atom *)
+DPrattPrefix(g, X, p, c, env, minp, k) ==
+  LET ops == g[3] IN
+  IF k > Len(ops) THEN D(g[2], X, p, c, env)
+  ELSE LET op == ops[k] IN
+       IF op[1] = "prefix" /\ XTok(X, p) = op[3]
+       THEN LET r == DPratt(g, X, p + 1, c, env, 2 * op[2]) IN
+            IF r.ok THEN [r EXCEPT !.val = DW(X, VF("pre", VS(<<op[3]>>), r.val), p, r.end, c)]
+            ELSE DPrattPrefix(g, X, p, c, env, minp, k + 1)
+       ELSE DPrattPrefix(g, X, p, c, env, minp, k + 1)
+(* first applicable postfix operator from index k: result [hit, end, val] *)
+DPrattPost(g, X, p0, q, c, env, minp, lhs, k) ==
+  LET ops == g[3] IN
+  IF k > Len(ops) THEN [hit |-> FALSE, end |-> q, val |-> lhs, em |-> <<>>]
+  ELSE LET op == ops[k] IN
+       IF op[1] = "postfix" /\ 2 * op[2] + 1 >= minp /\ XTok(X, q) = op[3]
+       THEN [hit |-> TRUE, end |-> q + 1, val |-> DW(X, VF("post", lhs, VS(<<op[3]>>)), p0, q + 1, c), em |-> <<>>]
+       ELSE DPrattPost(g, X, p0, q, c, env, minp, lhs, k + 1)
+(* first infix operator from index k that applies, matches and finds a right operand *)
+DPrattInfix(g, X, p0, q, c, env, minp, lhs, k) ==
+  LET ops == g[3] IN
+  IF k > Len(ops) THEN [hit |-> FALSE, end |-> q, val |-> lhs, em |-> <<>>]
+  ELSE LET op == ops[k] IN
+       IF op[1] \in {"infixl", "infixr"} /\ DLeftPow(op) >= minp /\ XTok(X, q) = op[3]
+       THEN LET r == DPratt(g, X, q + 1, c, env, DRightPow(op)) IN
+            IF r.ok THEN [hit |-> TRUE, end |-> r.end, em |-> r.em,
+                          val |-> DW(X, VF("in", VP(lhs, VS(<<op[3]>>)), r.val), p0, r.end, c)]
+            ELSE DPrattInfix(g, X, p0, q, c, env, minp, lhs, k + 1)
+       ELSE DPrattInfix(g, X, p0, q, c, env, minp, lhs, k + 1)
+DPrattLoop(g, X, p0, q, c, env, minp, acc) ==
+  LET po == DPrattPost(g, X, p0, q, c, env, minp, acc.val, 1) IN
+  IF po.hit THEN DPrattLoop(g, X, p0, po.end, c, env, minp, [acc EXCEPT !.val = po.val])
+  ELSE LET inf == DPrattInfix(g, X, p0, q, c, env, minp, acc.val, 1) IN
+       IF inf.hit THEN DPrattLoop(g, X, p0, inf.end, c, env, minp, [acc EXCEPT !.val = inf.val, !.em = @ \o inf.em])
+       ELSE [acc EXCEPT !.end = q]
+DPratt(g, X, p, c, env, minp) ==
+  LET first == DPrattPrefix(g, X, p, c, env, minp, 1) IN
+  IF ~first.ok THEN Fail({})
+  ELSE DPrattLoop(g, X, p, first.end, c, env, minp, R(TRUE, first.end, first.val, first.em, {}))
+
 D(g, X, p, c, env) ==
   LET o == Op(g)
       t == XTok(X, p)
@@ -294,6 +345,7 @@ D(g, X, p, c, env) ==
          ELSE LET rb == D(g[3], X, r.end, c, env) IN
               IF ~rb.ok THEN Fail(r.fl \cup rb.fl)
               ELSE R(TRUE, rb.end, FoldR(g[4], r.val, rb.val), r.em \o rb.em, r.fl \cup rb.fl)
+    [] o = "pratt" -> DPratt(g, X, p, c, env, 0)
     [] o = "rec" -> D(g[2], X, p, c, <<g[2]>> \o env)
     [] o = "ref" -> D(env[g[2]], X, p, c, SubSeq(env, g[2], Len(env)))
     [] o = "withctx" -> D(g[3], X, p, g[2], env)
